@@ -49,12 +49,15 @@ fn plan_cmd(args: &[String]) {
     let env = plan::PlanEnv {
         #[cfg(feature = "parallel")]
         pool: std::sync::Arc::new(rayon::ThreadPoolBuilder::new().num_threads(2).build().unwrap()),
+        #[cfg(feature = "parallel")]
+        pool_alt: std::sync::Arc::new(rayon::ThreadPoolBuilder::new().num_threads(1).build().unwrap()),
     };
     let stdout = std::io::stdout();
     let mut out = std::io::BufWriter::new(stdout.lock());
     let mut emit_meta = |map: MapMode, meta: &str, regs: &[prog::Reg], out: &mut dyn Write| {
         let case = format!("plan map={} meta={} :: {}", map.name(), meta, prog::to_text(regs));
-        let obs = plan::observe(regs, map, &env);
+        // the variant (`...b`) is built with a pool of another size
+        let obs = plan::observe_with(regs, map, &env, meta.ends_with('b'));
         writeln!(out, "{}\t{}", case, obs).unwrap();
     };
     let mut emit = |map: MapMode, regs: &[prog::Reg], out: &mut dyn Write| {
@@ -72,7 +75,10 @@ fn plan_cmd(args: &[String]) {
             let (head, progt) = case.split_once(" :: ").unwrap_or((case, ""));
             let map = head.split(' ').find_map(|t| t.strip_prefix("map=")).map(MapMode::parse).unwrap_or(MapMode::A);
             let regs = prog::from_text(progt);
-            emit(map, &regs, &mut out);
+            match head.split(' ').find_map(|t| t.strip_prefix("meta=")) {
+                Some(m) => emit_meta(map, m, &regs, &mut out),
+                None => emit(map, &regs, &mut out),
+            }
         }
         return;
     }
